@@ -40,6 +40,17 @@ type authority struct {
 	cfgs chan *mitm.Config
 }
 
+// The names the configuration itself carries: the authority's organisation and its own name (CN and DNS SAN, as
+// mitm.NewAuthority builds it). Clients may name exactly these (a proxy's own admin host is typically the CA's name).
+const caOrg = "Verif C06 Authority"
+
+func caName(kind string) string {
+	if kind == "rsa" {
+		return "verif-c06-ca"
+	}
+	return "verif-c06-ca-" + kind
+}
+
 var caKinds = []string{"rsa", "rsa3072", "p256", "p384", "ed25519", "faulty", "faultyec"}
 
 // faultySigner is a crypto.Signer that is not one of the stdlib key types and can be made to fail.
@@ -68,7 +79,7 @@ var (
 func newCA(kind string) (*x509.Certificate, crypto.Signer) {
 	const validity = 30 * 24 * time.Hour
 	if kind == "rsa" {
-		c, k, err := mitm.NewAuthority("verif-c06-ca", "Verif C06 Authority", validity)
+		c, k, err := mitm.NewAuthority(caName(kind), caOrg, validity)
 		if err != nil {
 			panic(err)
 		}
@@ -103,7 +114,8 @@ func newCA(kind string) (*x509.Certificate, crypto.Signer) {
 	serial, _ := rand.Int(rand.Reader, mitm.MaxSerialNumber)
 	tmpl := &x509.Certificate{
 		SerialNumber:          serial,
-		Subject:               pkix.Name{CommonName: "verif-c06-ca-" + kind, Organization: []string{"Verif C06 Authority"}},
+		Subject:               pkix.Name{CommonName: caName(kind), Organization: []string{caOrg}},
+		DNSNames:              []string{caName(kind)}, // like NewAuthority: the CA names itself
 		SubjectKeyId:          id[:],
 		KeyUsage:              x509.KeyUsageDigitalSignature | x509.KeyUsageCertSign,
 		ExtKeyUsage:           []x509.ExtKeyUsage{x509.ExtKeyUsageServerAuth},
